@@ -300,6 +300,12 @@ func (g *gen) assignTo(lhs string, t *typ, allowForms bool) {
 		}
 		g.line("%s = %s", lhs, g.boolExpr(2))
 	case t.k == kString:
+		// What is assigned to an existing string never mentions a string that can itself have been
+		// assigned to (only literals, constants and read-only strings, no calls): otherwise loops
+		// like s += s or s = f(s) grow a string exponentially.
+		g.strSafe++
+		g.noCalls++
+		defer func() { g.strSafe--; g.noCalls-- }()
 		if g.chance(35) {
 			s, _ := g.strExpr(1)
 			g.feat("compound:+=:string")
@@ -1219,7 +1225,16 @@ func (g *gen) stmtMapOp() {
 		}
 	case n < 70:
 		g.feat("map-store")
-		g.line("%s[%s] = %s", m.name, k, g.expr(m.t.elem, 1))
+		if m.t.elem.k == kString {
+			g.strSafe++
+			g.noCalls++
+		}
+		val := g.expr(m.t.elem, 1)
+		if m.t.elem.k == kString {
+			g.strSafe--
+			g.noCalls--
+		}
+		g.line("%s[%s] = %s", m.name, k, val)
 		if !definite {
 			m.xkeys = append(m.xkeys, k)
 		}
